@@ -87,6 +87,47 @@ class _Used(MustFlow):
         return state
 
 
+class _Consume(MustFlow):
+    def __init__(self, name):
+        super().__init__()
+        self.name = name
+
+    def refine(self, test, branch, state):
+        return state
+
+    def transfer(self, node, state):
+        for n in ast.walk(node):
+            if isinstance(n, ast.Call) and any(isinstance(x, ast.Name) and x.id == self.name
+                                               for a in n.args for x in ast.walk(a)):
+                return state | {'consumed'}
+        return state
+
+
+def _consumed_after(fi, stmt, name):
+    """On every path from `stmt` to the end of its block (or a return) the object is handed to
+    a call (append / recursion) or returned.  -> '' or a description of the escaping path."""
+    block = None
+    for n in ast.walk(fi.node):
+        for fld in ('body', 'orelse', 'finalbody'):
+            lst = getattr(n, fld, None)
+            if isinstance(lst, list) and any(s is stmt for s in lst):
+                block = lst
+    if block is None:
+        raise AnalysisError('%s: enclosing block of the split site not found' % fi.fq)
+    idx = [i for i, s in enumerate(block) if s is stmt][0]
+    fl = _Consume(name)
+    o = fl.walk(block[idx + 1:], frozenset())
+    if o.normal is not None and 'consumed' not in o.normal:
+        return 'is built but not stored / passed on before the end of its block'
+    for st, node in o.returns:
+        if st is None or 'consumed' in st:
+            continue
+        if node.value is not None and any(isinstance(x, ast.Name) and x.id == name for x in ast.walk(node.value)):
+            continue
+        return 'is dropped by `%s`' % ntext(node)[:40]
+    return ''
+
+
 def run(repo):
     res = RuleResult(RULE, 'equality = two inequalities at every split site', TEXT)
     res.floor = 3
@@ -146,19 +187,10 @@ def run(repo):
             for side, env in (('first', ea), ('second', eb)):
                 if 'sense' in env and not is_zero_sense(env['sense']):
                     problems.append('%s half has sense %s, not 0' % (side, ntext(env['sense'])[:30]))
-            uf = _Used({id(a['stmt']), id(b['stmt'])})
-            o = uf.run(body_stmts(fi))
-            for st, node in o.returns + ([(o.normal, None)] if o.normal is not None else []):
-                if st is None:
-                    continue
-                pend = sorted(f[1] for f in st if f[0] == 'pending')
-                # a Return whose value mentions the name consumes it
-                if node is not None and node.value is not None:
-                    used = {n.id for n in ast.walk(node.value) if isinstance(n, ast.Name)}
-                    pend = [p for p in pend if p not in used]
-                if pend:
-                    problems.append('half `%s` is built but never stored/returned on some path' % pend[0])
-                    break
+            for site in (a, b):
+                why = _consumed_after(fi, site['stmt'], site['new'])
+                if why:
+                    problems.append('half `%s` %s' % (site['new'], why))
             ok = not problems
             res.inst({'function': fi.fq, 'class': a['cls'], 'first': ntext(a['stmt'])[:70],
                       'second': ntext(b['stmt'])[:70], 'ok': ok}, ok)
